@@ -141,4 +141,6 @@ def trace_events(src, obs):
     l = obs.get("lsp")
     if l is not None and not l["dead"] and not l["hung"]:
         ev.append({"e": "lsp", "diagnostics": l["diagnostics"] >= 1})
+        if "diagnostics_open" in l:
+            ev.append({"e": "lsp", "diagnostics": l["diagnostics_open"] >= 1})
     return ev
